@@ -52,11 +52,13 @@ ROUTES = [
     # as it stands -- "T&T" must come out verbatim
     "{% <nb> %}T&T{% </nb> %}{{ v }}", "{% <nb> %}T&T{{ v }}{% </nb> %}", "{% <c p='a'> %}T&T{% </c> %}{{ v }}", "{% set x %}T&T{% endset %}{{ x }}{{ v }}",
     "{% filter safe %}T&T{% endfilter %}{{ v }}", "{% <nb> %}{% <nb> %}T&T{% </nb> %}{% </nb> %}{{ v }}", "{% for i in [1] %}{% <nb> %}T&T{% </nb> %}{% endfor %}{{ v }}",
+    # an ATTRIBUTE that happens to be called `body` (written out, or arriving through a spread) is data like any other
+    "{{<rb body={v} />}}", "{% set o = {'body': v} %}{{<rb {...o} />}}", "{% <rb body={v}> %}x{% </rb> %}", "{{<rb body={v} rest={v} />}}",
     "{% set a = <c p='x' /> %}{{ [a, a] | join(sep=v) }}", "{% set a %}x{% endset %}{{ (a if false else v) }}", "{% set a %}x{% endset %}{{ [a, v] | last }}{{ [v, a] | first }}", "{% set a %}x{% endset %}{{ [a, v] | reverse | join }}",
 ]
 LIB = [["inc", "I{{ v }}"], ["incx", "I{{ x }}"],
        ["comps", "{% component c(p) %}C{{ p }}{% if body is defined %}{{ body }}{% endif %}{% endcomponent c %}"
-                 "{% component nb() %}{{ body }}{% endcomponent nb %}{% component outer(p) %}O{{<c p={p} />}}{% <c p={p}> %}{{ p }}{% if body is defined %}{{ body }}{% endif %}{% </c> %}{% endcomponent outer %}"],
+                 "{% component nb() %}{{ body }}{% endcomponent nb %}{% component rb(...rest) %}R{{ rest.body }}|{% if body is defined %}B{{ body }}{% endif %}|{{ rest }}{% endcomponent rb %}{% component outer(p) %}O{{<c p={p} />}}{% <c p={p}> %}{{ p }}{% if body is defined %}{{ body }}{% endif %}{% </c> %}{% endcomponent outer %}"],
        ["compinc", "{% component ci(p) %}{% set v = p %}K{% include 'inc' %}{{<c p={p} />}}{% endcomponent ci %}"],
        ["base", "B{% block a %}P{{ v }}{% endblock %}{% block b %}{% endblock %}"],
        ["child", "{% extends 'base' %}{% block a %}K{{ super() }}{{ v }}{% endblock %}{% block b %}{% filter upper %}{% block n %}N{{ v }}{% endblock %}{% endfilter %}{% endblock %}"]]
